@@ -548,4 +548,371 @@ theorem req_ready (th : Hdr) (limit : Int) (valid : List Int) (hrun : C13.RunFro
   · rw [hm, g2]; rfl
   · rw [g2]; exact hnd
 
+
+/-! ### small facts about the request text and the server's clipping -/
+
+theorem specChars_ne (items : List (Nat × Nat)) (h : items ≠ []) : C10.specChars items ≠ [] := by
+  match items, h with
+  | [p], _ => simp [C10.specChars]
+  | p :: q :: r, _ => simp [C10.specChars]
+
+theorem rtext_nonempty (items : List (Nat × Nat)) (h : items ≠ []) :
+    ((if items.isEmpty then "" else (Range.render items).getD "").isEmpty) = false := by
+  have hi : items.isEmpty = false := by cases items with | nil => exact absurd rfl h | cons a r => rfl
+  rw [hi]
+  simp only [Bool.false_eq_true, ↓reduceIte]
+  rw [C10.render_exact items h]
+  simp only [Option.getD_some]
+  have := specChars_ne items h
+  cases hc : C10.specChars items with
+  | nil => exact absurd hc this
+  | cons a r =>
+    simp [String.isEmpty]
+    intro h0
+    have := Char.utf8Size_pos a
+    omega
+
+theorem clip_ok (total : Nat) : ∀ (items : List (Nat × Nat)), (∀ p ∈ items, p.1 ≤ p.2 ∧ p.2 < total) →
+    items.mapM (fun (p : Nat × Nat) => if p.1 > p.2 ∨ p.1 ≥ total then none else some (p.1, if p.2 ≥ total then total - 1 else p.2)) = some items
+  | [], _ => rfl
+  | p :: rest, h => by
+    have hp := h p List.mem_cons_self
+    simp only [List.mapM_cons]
+    rw [if_neg (by omega), if_neg (by omega)]
+    rw [clip_ok total rest (fun q hq => h q (List.mem_cons_of_mem _ hq))]
+    rfl
+
+/-! ### what the regex oracle must do on the reference server's responses -/
+
+/-- `regcomp`/`regexec` read the reference server's responses as intended: no boundary in the lines of a single-range
+response; in a multipart response the boundary of the Content-Type line is found (and nothing in the other lines), the two
+patterns built from it compile, in every part header the part pattern finds the two numbers of the range (and the header's
+first CRLFCRLF is its end), and the closing delimiter holds no part header.  These are facts about glibc's regex functions and
+about the text the server sends; the model takes the former as a parameter. -/
+structure Honest (rx : Rx) (n total : Nat) (items : List (Nat × Nat)) : Prop where
+  comp   : rx.comp hdrPattern = true
+  single : ∀ r, items = [r] → ∀ l ∈ singleLines total r, rx.hdr (cstr l) = none
+  multi  : items.length ≠ 1 → ∀ len l0 l1 l2 l3, mpLines n len = [l0, l1, l2, l3] →
+             (∀ l ∈ [l0, l2, l3], rx.hdr (cstr l) = none) ∧
+             ∃ so eo, rx.hdr (cstr l1) = some (so, eo) ∧ so ≤ eo ∧ eo ≤ (cstr l1).length ∧ boundaryOf (cstr l1) so eo = boundary n
+  compP  : rx.comp (partPattern (boundary n)) = true
+  compE  : rx.comp (endPattern (boundary n)) = true
+  parts  : ∀ r ∈ items, C05.HdrOk rx (partPattern (boundary n)) (partHdr n total r) (r.2 - r.1 + 1)
+  closing : NoHeader (closing n)
+
+theorem accepted_lengths (fs : List Bytes) : accepted (fs.map List.length) fs = true := by
+  unfold accepted
+  simp only [List.length_map, beq_self_eq_true, Bool.true_and]
+  induction fs with
+  | nil => rfl
+  | cons f fs ih => simp [List.zip_cons_cons, ih]
+
+theorem storedOf_ext (th : Hdr) (B : Bytes) (valid : List Int) (x : C10.Ext) (h : ExtOk th valid x) :
+    storedOf th B x.number = (B.drop x.start).take x.len := by
+  obtain ⟨c, h1, _, h3, _, h5⟩ := h
+  unfold storedOf
+  rw [h1]
+  simp only
+  rw [h3, h5]
+
+/-- the extents of the request lie inside the server's file, and its stored bytes hash to the index checksums -/
+theorem ext_in_B (H : HashFn) (rx : Rx) (th : Hdr) (B : Bytes) (valid : List Int) (hB : AllPresent (envOf H rx th []) B)
+    (x : C10.Ext) (h : ExtOk th valid x) :
+    x.start + x.len ≤ B.length ∧ ∃ c, th.chunks[x.number]? = some c ∧ c.compLen = x.len ∧
+      H th.chunkHashType ((B.drop x.start).take x.len) = some c.digest := by
+  obtain ⟨c, h1, _, h3, h4, h5⟩ := h
+  have := hB x.number c h1 (by rw [h3]; exact h4)
+  unfold ChunkOk at this
+  rw [if_neg (by rw [h3]; exact h4)] at this
+  have hoff : (envOf H rx th []).dataOff = th.lead + th.headerLen := rfl
+  rw [hoff, h3, ← h5] at this
+  exact ⟨this.1, c, h1, h3, this.2⟩
+
+/-! ### one transfer with a well-formed response -/
+
+theorem fresh_st0 (file : Bytes) (valid : List Int) : Fresh ({ file := file, pos := 0, valid := valid } : St) :=
+  ⟨rfl, rfl, rfl, rfl, rfl⟩
+
+/-- a single-range response: header lines without a boundary, then the stored bytes of the requested chunks in any pieces -/
+theorem session_single (e : Env) (stored : Nat → Bytes) (file : Bytes) (valid : List Int) (l0 l1 l2 l3 : Bytes) (fr : List Bytes)
+    (hc : e.rx.comp hdrPattern = true) (hn : ∀ l ∈ [l0, l1, l2, l3], e.rx.hdr (cstr l) = none)
+    (hne : e.ridx ≠ []) (hrun : RunIdx 0 e.ridx)
+    (hent : ∀ r ∈ e.ridx, EntryOk e stored r ∧ r.tgt < valid.length ∧ valid.getD r.tgt 0 ≠ 1)
+    (hnd : (e.ridx.map (·.tgt)).Nodup) (hfs : ∀ f ∈ fr, f ≠ []) (hcat : fr.flatten = payloadOf stored e.ridx) :
+    let s := session e file valid [l0, l1, l2, l3] fr
+    accepted s.1 [l0, l1, l2, l3] = true ∧ accepted s.2.1 fr = true ∧
+    (∀ r ∈ e.ridx, s.2.2.valid.getD r.tgt 0 = 1) ∧
+    (∀ k, (∀ r ∈ e.ridx, r.tgt ≠ k) → s.2.2.valid.getD k 0 = valid.getD k 0) := by
+  intro s
+  have hs : s = session e file valid [l0, l1, l2, l3] fr := rfl
+  unfold session at hs
+  simp only at hs
+  rw [feedHdrs_single e _ l0 l1 l2 l3 rfl hc rfl hn] at hs
+  simp only at hs
+  have hfr := single_fresh_frags e stored (hdrReady { file := file, pos := 0, valid := valid }) fr true false
+    ⟨rfl, rfl, rfl, rfl, rfl⟩ rfl hne hrun hent hnd hfs hcat
+  obtain ⟨a1, a2, a3⟩ := hfr
+  rw [hs]
+  refine ⟨accepted_lengths [l0, l1, l2, l3], ?_, a2, a3⟩
+  simp only
+  rw [a1]
+  exact accepted_lengths fr
+
+/-- a multipart response: the boundary line among the header lines, then the parts in any pieces -/
+theorem session_multi (e : Env) (hd : Disj e) (stored : Nat → Bytes) (file : Bytes) (valid : List Int) (l0 l1 l2 l3 : Bytes)
+    (bnd : Bytes) (so eo : Nat) (ps : List Part) (gs : List (List RChunk)) (trailer : Bytes) (fr : List Bytes)
+    (hc : e.rx.comp hdrPattern = true) (hn : ∀ l ∈ [l0, l2, l3], e.rx.hdr (cstr l) = none)
+    (hm : e.rx.hdr (cstr l1) = some (so, eo)) (hso : so ≤ eo ∧ eo ≤ (cstr l1).length) (hb : boundaryOf (cstr l1) so eo = bnd)
+    (h1 : e.rx.comp (partPattern bnd) = true) (h2 : e.rx.comp (endPattern bnd) = true)
+    (hpay : ps.map (·.payload) = gs.map (payloadOf stored)) (hgne : ∀ g ∈ gs, g ≠ []) (hne : gs ≠ [])
+    (hridx : e.ridx = gs.flatten) (hrun : RunIdx 0 e.ridx)
+    (hent : ∀ r ∈ e.ridx, EntryOk e stored r ∧ r.tgt < valid.length ∧ valid.getD r.tgt 0 ≠ 1)
+    (hnd : (e.ridx.map (·.tgt)).Nodup) (hok : ∀ p ∈ ps, PartOk e.rx (partPattern bnd) p) (htr : NoHeader trailer)
+    (hfs : ∀ f ∈ fr, f ≠ []) (hcat : fr.flatten = partsBytes ps ++ trailer) :
+    let s := session e file valid [l0, l1, l2, l3] fr
+    accepted s.1 [l0, l1, l2, l3] = true ∧ accepted s.2.1 fr = true ∧
+    (∀ r ∈ e.ridx, s.2.2.valid.getD r.tgt 0 = 1) ∧
+    (∀ k, (∀ r ∈ e.ridx, r.tgt ≠ k) → s.2.2.valid.getD k 0 = valid.getD k 0) := by
+  intro s
+  have hs : s = session e file valid [l0, l1, l2, l3] fr := rfl
+  unfold session at hs
+  simp only at hs
+  rw [feedHdrs_multi e _ l0 l1 l2 l3 so eo rfl hc rfl hn hm hso, hb] at hs
+  simp only at hs
+  have hfr := multipart_complete_frags_null e hd stored
+    ({ hdrReady { file := file, pos := 0, valid := valid } with mp := {}, boundary := some bnd } : St) ps gs trailer fr true false
+    ⟨rfl, rfl, rfl, rfl, rfl⟩ rfl rfl rfl h1 h2 hpay hgne hne hridx hrun hent hnd hok htr hfs hcat
+  obtain ⟨a1, a2, a3, _, _⟩ := hfr
+  rw [hs]
+  refine ⟨accepted_lengths [l0, l1, l2, l3], ?_, a2, a3⟩
+  simp only
+  rw [a1]
+  exact accepted_lengths fr
+
+/-! ### one round of the fetch loop -/
+
+theorem round_of_session (n : Nat) (H : HashFn) (rx : Rx) (B : Bytes) (th : Hdr) (limit : Int) (frag : Nat) (file : Bytes)
+    (valid : List Int) (rs : List (Nat × Nat)) (hi : (reqOf th limit valid).items ≠ [])
+    (hclip : clip B.length (reqOf th limit valid).items = some rs)
+    (hacc : accepted (session { H := H, rx := rx, hdr := th, ridx := mkRidx (reqOf th limit valid).index 0 } file valid
+      (respond n B rs).1 (pieces frag (respond n B rs).2)).1 (respond n B rs).1 = true) :
+    ∃ r, Update.round n H rx B th limit frag none file valid =
+      (r, some ((session { H := H, rx := rx, hdr := th, ridx := mkRidx (reqOf th limit valid).index 0 } file valid
+          (respond n B rs).1 (pieces frag (respond n B rs).2)).2.2.file,
+        (session { H := H, rx := rx, hdr := th, ridx := mkRidx (reqOf th limit valid).index 0 } file valid
+          (respond n B rs).1 (pieces frag (respond n B rs).2)).2.2.valid,
+        accepted (session { H := H, rx := rx, hdr := th, ridx := mkRidx (reqOf th limit valid).index 0 } file valid
+          (respond n B rs).1 (pieces frag (respond n B rs).2)).2.1 (pieces frag (respond n B rs).2))) := by
+  unfold Update.round
+  simp only
+  have hrt := rtext_nonempty (reqOf th limit valid).items hi
+  rw [hrt]
+  simp only [Bool.false_eq_true, ↓reduceIte, hclip, cutBody]
+  have hie : (reqOf th limit valid).items.isEmpty = false := by
+    cases hh : (reqOf th limit valid).items with
+    | nil => exact absurd hh hi
+    | cons a r => rfl
+  simp only [hie, Bool.false_eq_true, ↓reduceIte]
+  rw [if_neg (by rw [hacc]; simp)]
+  exact ⟨_, rfl⟩
+
+theorem getLastD_mem_ne (g : List C10.Ext) (h : g ≠ []) : g.getLastD dflt ∈ g := by
+  cases g with
+  | nil => exact absurd rfl h
+  | cons a r => rw [List.getLastD_cons]; exact getLastD_mem r a
+
+/-- **one round with a well-formed response**: the round is carried out, every body fragment is accepted, every requested chunk
+ends up marked valid, no other mark changes, and something was requested -/
+theorem round_complete (n : Nat) (H : HashFn) (rx : Rx) (B : Bytes) (th : Hdr) (limit : Int) (frag : Nat) (file : Bytes)
+    (valid : List Int) (hrun : C13.RunFrom 0 0 th.chunks)
+    (hbound : th.lead + th.headerLen + C13.sumLen th.chunks < 2^64) (hBsmall : B.length < W64)
+    (hB : AllPresent (envOf H rx th []) B) (hvl : valid.length = th.chunks.length)
+    (hmiss : ∃ k c, th.chunks[k]? = some c ∧ valid.getD k 0 = 0 ∧ c.compLen ≠ 0)
+    (hon : ∀ items, Honest rx n B.length items) :
+    ∃ r f v, Update.round n H rx B th limit frag none file valid = (r, some (f, v, true)) ∧
+      (reqOf th limit valid).index ≠ [] ∧
+      (∀ p ∈ (reqOf th limit valid).index, v.getD p.1 0 = 1) ∧
+      (∀ k, (∀ p ∈ (reqOf th limit valid).index, p.1 ≠ k) → v.getD k 0 = valid.getD k 0) := by
+  obtain ⟨gs, hgne, hg, hx, hitems, hindex, hnd⟩ := req_ready th limit valid hrun hbound hmiss
+  have hon' := hon (gs.map spanOf)
+  -- every extent of the request lies in the server's file
+  have hin : ∀ x ∈ gs.flatten, x.start + x.len ≤ B.length := fun x hx' => (ext_in_B H rx th B valid hB x (hx x hx').2).1
+  have hmemg : ∀ g ∈ gs, ∀ x ∈ g, x ∈ gs.flatten := fun g hg' x hx' => List.mem_flatten.mpr ⟨g, hg', hx'⟩
+  -- spans
+  have hspan : ∀ g ∈ gs, (spanOf g).1 ≤ (spanOf g).2 ∧ (spanOf g).2 < B.length := by
+    intro g hg'
+    have hl := getLastD_mem_ne g (hg g hg').1
+    have hpos := (hx _ (hmemg g hg' _ hl)).1
+    have hb := hin _ (hmemg g hg' _ hl)
+    obtain ⟨i1, _, _⟩ := slice_group B g (hg g hg').1 (hg g hg').2 (fun x hx' => (hx x (hmemg g hg' x hx')).1)
+    have h2 : (spanOf g).2 = (g.getLastD dflt).start + (g.getLastD dflt).len - 1 := rfl
+    have hs : 0 < sumLens g := by
+      cases g with
+      | nil => exact absurd rfl (hg [] hg').1
+      | cons a r => simp only [sumLens]; have := (hx a (hmemg _ hg' a (by simp))).1; omega
+    omega
+  -- the slices the server sends are the stored bytes of the groups
+  have hslice : ∀ g ∈ gs, sliceIncl B (spanOf g) = (g.map fun x => storedOf th B x.number).flatten := by
+    intro g hg'
+    rw [sliceIncl_group B g (hg g hg').1 (hg g hg').2 (fun x hx' => (hx x (hmemg g hg' x hx')).1)]
+    congr 1
+    apply List.map_congr_left
+    intro x hx'
+    exact (storedOf_ext th B valid x (hx x (hmemg g hg' x hx')).2).symm
+  -- the environment of the transfer
+  generalize he : ({ H := H, rx := rx, hdr := th, ridx := mkRidx (reqOf th limit valid).index 0 } : Env) = e
+  have hridx : e.ridx = (mkGroups gs 0).flatten := by rw [← he, hindex, mkGroups_flatten]
+  have hridx' : e.ridx = mkRidx (toIdx gs.flatten) 0 := by rw [← he, hindex]
+  have hrunidx : RunIdx 0 e.ridx := by
+    rw [hridx']
+    apply runIdx_mkRidx
+    intro p hp
+    simp only [toIdx, List.mem_map] at hp
+    obtain ⟨x, hx', rfl⟩ := hp
+    exact (hx x hx').1
+  have hent : ∀ r ∈ e.ridx, EntryOk e (storedOf th B) r ∧ r.tgt < valid.length ∧ valid.getD r.tgt 0 ≠ 1 := by
+    intro r hr
+    rw [hridx'] at hr
+    obtain ⟨x, hx', h1, h2⟩ := mem_mkRidx _ _ r hr
+    have hxo := (hx x hx').2
+    obtain ⟨hlenB, c, hc1, hc2, hc3⟩ := ext_in_B H rx th B valid hB x hxo
+    obtain ⟨_, _, hv0, _, _, _⟩ := hxo
+    have hst := storedOf_ext th B valid x (hx x hx').2
+    refine ⟨⟨c, ?_, ?_, ?_, ?_⟩, ?_, ?_⟩
+    · rw [← he, h1]; exact hc1
+    · rw [h2, hc2]
+    · rw [h1, hst, h2]; simp only [List.length_take, List.length_drop]; omega
+    · rw [← he, h1, hst]; exact hc3
+    · rw [h1, hvl]
+      have := List.getElem?_eq_some_iff.mp hc1
+      exact this.1
+    · rw [h1, hv0]; simp
+  have hndr : (e.ridx.map (·.tgt)).Nodup := by
+    rw [hridx', mkRidx_tgts]; exact hnd
+  have hd : Disj e := by
+    rw [← he]; exact disj_of_runFrom _ hrun
+  have hitemsne : (reqOf th limit valid).items ≠ [] := by
+    rw [hitems]; intro h; exact hgne (List.map_eq_nil_iff.mp h)
+  have hclip : clip B.length (reqOf th limit valid).items = some (gs.map spanOf) := by
+    unfold clip
+    have hie : (reqOf th limit valid).items.isEmpty = false := by
+      cases hh : (reqOf th limit valid).items with
+      | nil => exact absurd hh hitemsne
+      | cons a r => rfl
+    rw [hie, hitems]
+    simp only [Bool.false_eq_true, ↓reduceIte]
+    apply clip_ok
+    intro p hp
+    obtain ⟨g, hg', rfl⟩ := List.mem_map.mp hp
+    exact hspan g hg'
+  -- the transfer itself
+  have hsess : let s := session e file valid (respond n B (gs.map spanOf)).1 (pieces frag (respond n B (gs.map spanOf)).2)
+      accepted s.1 (respond n B (gs.map spanOf)).1 = true ∧ accepted s.2.1 (pieces frag (respond n B (gs.map spanOf)).2) = true ∧
+      (∀ r ∈ e.ridx, s.2.2.valid.getD r.tgt 0 = 1) ∧
+      (∀ k, (∀ r ∈ e.ridx, r.tgt ≠ k) → s.2.2.valid.getD k 0 = valid.getD k 0) := by
+    have hrxe : e.rx = rx := by rw [← he]
+    match gs, hgne, hg, hslice, hspan, hon', hridx with
+    | [g], _, hg, hslice, hspan, hon', hridx =>
+      -- one range: a plain body
+      have hresp : respond n B ([g].map spanOf) = (singleLines B.length (spanOf g), sliceIncl B (spanOf g)) := rfl
+      rw [hresp]
+      have hps := pieces_spec frag (sliceIncl B (spanOf g))
+      have hpay : sliceIncl B (spanOf g) = payloadOf (storedOf th B) e.ridx := by
+        rw [hridx, hslice g (by simp)]
+        simp only [mkGroups, List.flatten_cons, List.flatten_nil, List.append_nil]
+        rw [payloadOf_mkRidx]
+      exact session_single e (storedOf th B) file valid _ _ _ _ _ (by rw [hrxe]; exact hon'.comp)
+        (by rw [hrxe]; exact hon'.single (spanOf g) rfl)
+        (by rw [hridx]; simp only [mkGroups, List.flatten_cons, List.flatten_nil, List.append_nil]
+            have := (hg g (by simp)).1
+            cases g with
+            | nil => exact absurd rfl this
+            | cons a r => simp [toIdx, mkRidx])
+        hrunidx hent hndr hps.2 (by rw [hps.1]; exact hpay)
+    | g1 :: g2 :: rest, _, hg, hslice, hspan, hon', hridx =>
+      -- several ranges: multipart
+      have hlen1 : ((g1 :: g2 :: rest).map spanOf).length ≠ 1 := by simp
+      generalize hits : (g1 :: g2 :: rest).map spanOf = items at hon' hlen1
+      have hitm : ∀ r ∈ items, ∃ g ∈ (g1 :: g2 :: rest), r = spanOf g := by
+        intro r hr; rw [← hits] at hr; obtain ⟨g, hg', rfl⟩ := List.mem_map.mp hr; exact ⟨g, hg', rfl⟩
+      have hresp : respond n B items =
+          (mpLines n ((items.map fun r => partHdr n B.length r ++ Update.crlf2 ++ sliceIncl B r).flatten ++ closing n).length,
+           (items.map fun r => partHdr n B.length r ++ Update.crlf2 ++ sliceIncl B r).flatten ++ closing n) := by
+        rw [← hits]; rfl
+      rw [hresp]
+      simp only
+      generalize hbody : (items.map fun r => partHdr n B.length r ++ Update.crlf2 ++ sliceIncl B r).flatten ++ closing n = body
+      obtain ⟨hnone, so, eo, hm, hso1, hso2, hbnd⟩ := hon'.multi hlen1 body.length _ _ _ _ rfl
+      have hps := pieces_spec frag body
+      let ps : List Part := items.map fun r => (⟨partHdr n B.length r, sliceIncl B r⟩ : Part)
+      have hpsb : partsBytes ps ++ closing n = body := by
+        rw [← hbody]
+        congr 1
+        simp only [partsBytes, ps, List.map_map]
+        rfl
+      have hpay : ps.map (·.payload) = (mkGroups (g1 :: g2 :: rest) 0).map (payloadOf (storedOf th B)) := by
+        rw [mkGroups_payload]
+        simp only [ps, List.map_map]
+        rw [← hits, List.map_map]
+        apply List.map_congr_left
+        intro g hg'
+        exact hslice g hg'
+      have hok : ∀ p ∈ ps, PartOk e.rx (partPattern (boundary n)) p := by
+        intro p hp
+        obtain ⟨r, hr, rfl⟩ := List.mem_map.mp hp
+        obtain ⟨g, hg', rfl⟩ := hitm r hr
+        have hsp := hspan g hg'
+        have hlen : (sliceIncl B (spanOf g)).length = (spanOf g).2 - (spanOf g).1 + 1 := by
+          unfold sliceIncl
+          simp only [List.length_take, List.length_drop]
+          omega
+        have hh := hon'.parts (spanOf g) hr
+        rw [hrxe]
+        refine ⟨hh.1, ?_, ?_, ?_⟩
+        · intro h
+          have := congrArg List.length h
+          simp only at this
+          rw [hlen] at this
+          simp at this
+        · show (sliceIncl B (spanOf g)).length < W64
+          rw [hlen]; omega
+        · show ∃ a1 b1 a2 b2, _ ∧ _ ∧ _ ∧ _ ∧ _ ∧ _ = (sliceIncl B (spanOf g)).length
+          rw [hlen]
+          exact hh.2
+      exact session_multi e hd (storedOf th B) file valid _ _ _ _ (boundary n) so eo ps (mkGroups (g1 :: g2 :: rest) 0) (closing n) _
+        (by rw [hrxe]; exact hon'.comp) (by rw [hrxe]; exact hnone) (by rw [hrxe]; exact hm) ⟨hso1, hso2⟩ hbnd
+        (by rw [hrxe]; exact hon'.compP) (by rw [hrxe]; exact hon'.compE) hpay
+        (mkGroups_ne _ 0 (fun g hg' => (hg g hg').1)) (by simp [mkGroups]) hridx hrunidx hent hndr hok hon'.closing hps.2
+        (by rw [hps.1, hpsb])
+  obtain ⟨r, hr⟩ := round_of_session n H rx B th limit frag file valid (gs.map spanOf) hitemsne hclip (by rw [he]; exact hsess.1)
+  rw [he] at hr
+  refine ⟨r, (session e file valid (respond n B (gs.map spanOf)).1 (pieces frag (respond n B (gs.map spanOf)).2)).2.2.file,
+    (session e file valid (respond n B (gs.map spanOf)).1 (pieces frag (respond n B (gs.map spanOf)).2)).2.2.valid, ?_, ?_, ?_, ?_⟩
+  · rw [hr, hsess.2.1]
+  · rw [hindex]; intro h
+    have hfl : gs.flatten = [] := by simpa [toIdx] using h
+    cases gs with
+    | nil => exact hgne rfl
+    | cons g rest =>
+      have hgn := (hg g (by simp)).1
+      simp only [List.flatten_cons, List.append_eq_nil_iff] at hfl
+      exact hgn hfl.1
+  · intro p hp
+    rw [hindex] at hp
+    simp only [toIdx, List.mem_map] at hp
+    obtain ⟨x, hx', rfl⟩ := hp
+    have : x.number ∈ e.ridx.map (·.tgt) := by rw [hridx', mkRidx_tgts]; exact List.mem_map_of_mem hx'
+    obtain ⟨r', hr', hrt⟩ := List.mem_map.mp this
+    rw [← hrt]
+    exact hsess.2.2.1 r' hr'
+  · intro k hk
+    apply hsess.2.2.2 k
+    intro r' hr' heq
+    have : r'.tgt ∈ e.ridx.map (·.tgt) := List.mem_map_of_mem hr'
+    rw [hridx', mkRidx_tgts] at this
+    obtain ⟨x, hx', hxn⟩ := List.mem_map.mp this
+    apply hk (x.number, x.len)
+    · rw [hindex]; exact List.mem_map_of_mem hx'
+    · simp only; rw [hxn]; exact heq
+
 end Zck.C04
